@@ -144,7 +144,7 @@ fn header_level(ctx: &mut Ctx, arena: &Arena, h: &[u8]) {
             for slot in 0..13 {
                 battery::feed(ctx, &passes[0][slot]);
                 if passes[0][slot] != passes[1][slot] {
-                    ctx.violation("c09/stateful-accessor", || format!("call group {} gives different results in declaration order and in reverse order", slot));
+                    ctx.machinery(&format!("call group {} gives different results in declaration order and in reverse order: the statelessness assumption behind the accessor battery (DESIGN 2.4) does not hold", slot));
                 }
             }
         });
